@@ -5,6 +5,7 @@ hard-exit sentinel are checked on the serialised text."""
 import json
 import re
 
+import comp_corr
 import flowutil
 import sheetgen
 from common import enc_str, enc_list, parse_sexp, dec_str, run_cli_mode
@@ -159,9 +160,15 @@ def judge(ctx, sheets, nontrivial, samples, label, outcome=None):
         if DUP_MSG in str(r[-1]):
             ctx.count("rejected_duplicate_node_id")
         return
-    doc = r[1]
-    ctx.count("compiled")
     rep = dict(sheets={k: dict(headers=h, rows=[[c.get(x, "") for x in h] for c in rows]) for k, (h, rows) in sheets.items()})
+    judge_doc(ctx, r[1], given_ids(sheets), rep, nontrivial, samples, label,
+              {str(r.get("_nodeId", "")) for _, (_, rws) in sheets.items() for r in rws} - {""})
+
+
+def judge_doc(ctx, doc, g, rep, nontrivial, samples, label, node_ids_given):
+    """the property's oracle on ONE compiled document: (h) plain JSON, (i) no sentinel, (a)-(g) by closedb"""
+    v, m = ctx.v, ctx.model
+    ctx.count("compiled")
     # (h) plain JSON, (i) no internal marker
     try:
         text = json.dumps(doc)
@@ -173,7 +180,6 @@ def judge(ctx, sheets, nontrivial, samples, label, outcome=None):
     if "HARD_EXIT" in text:
         v.failing_input("sentinel-leaks", "the hard-exit sentinel appears in the compiled document", rep)
         return
-    g = given_ids(sheets)
     ids = [s for s in flowutil.strings_in(doc) if s in g]
     if m:
         res = m.ask("(6 1 (%s) %s)" % (" ".join(enc_str(s) for s in ids), flowutil.doc_sexp(doc)))
@@ -193,7 +199,6 @@ def judge(ctx, sheets, nontrivial, samples, label, outcome=None):
         # which node identifiers are repeated?  The listed finding is about a GIVEN `_nodeId` ending up on
         # two nodes (written on two rows, or on a row of a template that is instantiated twice); a repeated
         # INVENTED identifier is a different defect and is never covered by it
-        node_ids_given = {str(r.get("_nodeId", "")) for _, (_, rws) in sheets.items() for r in rws} - {""}
         rep_ids = set()
         for f in doc["flows"]:
             seen = set()
@@ -256,6 +261,16 @@ def run(ctx):
         directed[f"{what} [{expect}]"] = out[0]
     ctx.stats["directed_duplicate_node_id"] = directed
     validation_correspondence(ctx)
+    # the compiler model (Comp/Compile.v, the subject of the C01_compile_* theorems) against create_flows; every document
+    # the implementation compiles on the way is judged by closedb as well
+    docs = []
+    comp_corr.run(ctx, (8000 if thorough else 450) * ctx.scale, doc_sink=docs)
+    for doc, rows, headers, cells in docs:
+        ctx.v.coverage["evaluations"] += 1
+        rep = dict(sheets={"content_index": dict(headers=flowutil.INDEX_HEADERS, rows=[["create_flow", "f1"] + [""] * (len(flowutil.INDEX_HEADERS) - 2)]),
+                           "f1": dict(headers=headers, rows=cells)})
+        judge_doc(ctx, doc, flowutil.strings_in(rows) | given_ids({"f1": (headers, [dict(zip(headers, c)) for c in cells])}), rep, nontrivial, samples,
+                  "compiler_model_sheet", {str(r.get("node_uuid") or "") for r in rows} - {""})
     for i in range(n):
         rng = ctx.rng
         x = rng.random()
